@@ -101,9 +101,12 @@ Qed.
 Lemma rule_is_eqb r r0 st : s_rule st = Some r0 -> rule_is r st = Nat.eqb r0 r.
 Proof. intros H. unfold rule_is. now rewrite H. Qed.
 
-Lemma count_step s l s' : tstep s l s' -> Inv s -> keys_ok s -> keys_ok s' -> (forall a b, l <> LClone a b) -> count_ok s -> count_ok s'.
+(* an add_match call that has just created the entry of its rule is its only holder *)
+Definition a2_one (s : sys) : Prop := forall sid r c, a2 s sid r c -> holders s r = 1.
+
+Lemma count_step s l s' : tstep s l s' -> Inv s -> keys_ok s -> keys_ok s' -> (forall a b, l <> LClone a b) -> a2_one s -> count_ok s -> count_ok s'.
 Proof.
-  intros Hs I [Ks Ka] [Ks' Ka'] Hnc C.
+  intros Hs I [Ks Ka] [Ks' Ka'] Hnc Aone C.
   destruct Hs; try (eapply count_same; [exact C | reflexivity..]).
   - (* add start: a call in A0 holds nothing *)
     apply fresh_spec in H. destruct H as (_ & Hn & _). intros r0. specialize (C r0). unfold holders in *. cbn [subs streams adds tasks with_adds] in *.
@@ -301,6 +304,18 @@ Proof.
     intros r0. specialize (C r0). unfold holders in *. rewrite Es, Ea, Esub, (S_pred s s' r0 (in_r1_drops s s' Ed)).
     unfold s'. cbn [tasks with_tasks]. pose proof (cnt_del_nth (holds_task r0) (tasks s) n (r, R1 c) H) as Hx. rewrite holds_task_val, andb_false_r in Hx. cbn [b2n] in Hx.
     destruct (lookup (subs s) r0); lia.
+  - (* add sender, failed: the call was the only holder; entry and call go together *)
+    set (r1 := a_rule a) in *. set (s' := with_adds _ _).
+    assert (Hme : a2 s sid r1 c) by (exists a; tauto). pose proof (Aone _ _ _ Hme) as Hone.
+    assert (Ed : drops s' = drops s) by reflexivity.
+    intros r0. specialize (C r0). unfold holders in *.
+    pose proof (A_change s s' sid r0 Ka Ka' ltac:(apply del_del)) as HA.
+    unfold contrib_a in HA. change (adds s') with (del (adds s) sid) in HA at 2. rewrite lookup_del_same, H in HA. rewrite (holds_add_a2 r0 sid a c H0) in HA. fold r1 in HA.
+    change (streams s') with (streams s). rewrite (S_pred s s' r0 (in_r1_drops s s' Ed)). change (tasks s') with (tasks s). change (subs s') with (del (subs s) r1).
+    destruct (Nat.eq_dec r0 r1) as [->|Hne].
+    + rewrite lookup_del_same. rewrite Nat.eqb_refl in HA. cbn [b2n] in HA. lia.
+    + rewrite lookup_del_other by assumption. replace (Nat.eqb r1 r0) with false in HA by (symmetry; apply Nat.eqb_neq; congruence). cbn [b2n] in HA.
+      destruct (lookup (subs s) r0); lia.
 Qed.
 
 Definition chan_agree (s : sys) : Prop :=
@@ -378,6 +393,8 @@ Proof.
     cbn [streams subs with_tasks] in Hl, He. rewrite streams_rm in Hl. rewrite subs_rm in He.
     assert (Hin' : in_r1 s sid0 = false) by (unfold in_r1 in *; cbn [drops with_tasks] in Hin; now rewrite drops_rm in Hin).
     eapply G; eassumption.
+  - (* add sender, failed *) cbn [streams subs with_adds with_subs set_chan with_chans] in Hl, He. assert (Hin' : in_r1 s sid0 = false) by exact Hin.
+    apply in_del_lookup in He. eapply G; eassumption.
 Qed.
 
 (* ---- an entry of `subscriptions` has its sender in msg_senders, unless it is just being created or the reader has failed;
@@ -411,11 +428,12 @@ Proof.
 Qed.
 
 (* while somebody holds `subscriptions`, the table does not change *)
-Lemma busy_subs_same s l s' : tstep s l s' -> subs_busy s = true -> subs s' = subs s.
+Lemma busy_subs_same s l s' : tstep s l s' -> subs_busy s = true -> subs s' = subs s \/ exists sid r c, a2 s sid r c /\ l = LAddSender sid.
 Proof.
-  intros Hs Hb. destruct Hs; try reflexivity; try congruence.
-  - cbn [subs with_drops]. change (subs (bury (rm_sender s r) sid st)) with (subs (rm_sender s r)). apply subs_rm.
-  - cbn [subs with_tasks]. apply subs_rm.
+  intros Hs Hb. destruct Hs; try (left; reflexivity); try congruence.
+  - left. cbn [subs with_drops]. change (subs (bury (rm_sender s r) sid st)) with (subs (rm_sender s r)). apply subs_rm.
+  - left. cbn [subs with_tasks]. apply subs_rm.
+  - (* the failing add_match takes its entry back *) right. exists sid, (a_rule a), c. split; [exists a; tauto | reflexivity].
 Qed.
 
 Lemma busy_of_a2 s sid r c : a2 s sid r c -> subs_busy s = true.
@@ -445,6 +463,7 @@ Proof.
   - exfalso. pose proof (rm_apply_frame _ _ _ _ H1) as (_ & _ & Eadd & _). eapply (not_busy_a2 s); [exact Hb|]. eapply a2_ext; [|exact Ha]. cbn [adds with_tasks]. exact Eadd.
   - exfalso. pose proof (rm_apply_frame _ _ _ _ H1) as (_ & _ & Eadd & _). eapply (not_busy_a2 s); [exact Hb|]. eapply a2_ext; [|exact Ha]. cbn [adds with_tasks]. exact Eadd.
   - left. eapply a2_ext; [|exact Ha]. cbn [adds with_tasks]. apply adds_rm.
+  - (* add sender, failed *) left. match type of Ha with a2 ?s1 _ _ _ => apply (a2_del s s1 sid0 sid r c eq_refl) in Ha end. apply Ha.
 Qed.
 
 Ltac rm_tables :=
@@ -570,13 +589,16 @@ Proof.
     destruct (Nat.eq_dec r' r) as [->|Hne]; [rewrite (E2 _ _ Hr1) in He'; discriminate|].
     destruct (E1 _ _ He') as [Hx|[[sid' Hx]|Hx]]; [left | exfalso; eapply inv_excl; eassumption | now right; right].
     apply in_del_key. split; [assumption | cbn; congruence].
+  - (* add sender, failed: msg_senders is empty, so the reader has stopped *) intros r' e' He'. right; right.
+    destruct E4 as [Hin|Hst]; [rewrite H2 in Hin; destruct Hin | exact Hst].
 Qed.
 
 Lemma ereg_step s l s' : tstep s l s' -> Inv s -> ereg s -> ereg s'.
 Proof.
   intros Hs I E. split; [eapply e1_step; eassumption|]. destruct E as (E1 & E2 & E4). split; [|eapply kall_step; eassumption].
   intros r c Hr. destruct (r1_new _ _ _ _ _ Hs I Hr) as [Hold|[_ Hn]]; [|exact Hn].
-  rewrite (busy_subs_same _ _ _ Hs (busy_of_r1 _ _ _ Hold)). exact (E2 _ _ Hold).
+  destruct (busy_subs_same _ _ _ Hs (busy_of_r1 _ _ _ Hold)) as [Es|(sid & r' & c' & Ha & _)]; [rewrite Es; exact (E2 _ _ Hold)|].
+  exfalso. eapply inv_excl; eassumption.
 Qed.
 
 Lemma ereg_init : ereg init.
@@ -595,15 +617,33 @@ Qed.
 (* ---- the invariant along every history without clone ---- *)
 Definition no_clone (tr : list label) : Prop := forall a b, ~ In (LClone a b) tr.
 
-Theorem share_reach tr s : reach tr s -> no_clone tr -> count_ok s /\ chan_agree s.
+(* the creator of an entry stays its only holder while it holds `subscriptions` *)
+Lemma a2_one_step s l s' : tstep s l s' -> Inv s -> count_ok s -> count_ok s' -> a2_one s -> a2_one s'.
+Proof.
+  intros Hs I C C' A sid r c Ha'. destruct (a2_new _ _ _ _ _ _ Hs I Ha') as [Ha|(Hb & Hent)].
+  - destruct (busy_subs_same _ _ _ Hs (busy_of_a2 _ _ _ _ Ha)) as [Es|(sid0 & r0 & c0 & Ha0 & ->)].
+    + destruct (inv_a2 _ _ I _ _ _ Ha) as ((e & He & _) & _). pose proof (A _ _ _ Ha) as H1. specialize (C r). rewrite He in C.
+      specialize (C' r). rewrite Es, He in C'. lia.
+    + (* LAddSender of the one call in A2: afterwards there is none *) exfalso.
+      pose proof (inv_a2_uniq _ _ I _ _ _ _ _ _ Ha Ha0) as ->.
+      inversion Hs; subst;
+        match type of Ha' with a2 ?s1 _ _ _ => apply (a2_del s s1 sid0 sid0 r c eq_refl) in Ha' end; destruct Ha' as [_ Hne]; now apply Hne.
+  - specialize (C' r). rewrite Hent in C'. cbn [e_ref] in C'. lia.
+Qed.
+
+Theorem share_reach_full tr s : reach tr s -> no_clone tr -> count_ok s /\ chan_agree s /\ a2_one s.
 Proof.
   induction 1 as [|tr s l s' Hr IH Hs]; intros Hnc.
-  - split; [intros r; cbn; reflexivity | intros sid st r e Hl; discriminate].
+  - split; [intros r; cbn; reflexivity | split; [intros sid st r e Hl; discriminate | intros sid r c (a & Ha & _); discriminate]].
   - assert (Hnc' : no_clone tr) by (intros a b Hin; apply (Hnc a b), in_app_iff; now left).
     assert (Hl : forall a b, l <> LClone a b) by (intros a b ->; apply (Hnc a b), in_app_iff; right; now left).
-    destruct (IH Hnc') as [C G]. pose proof (Inv_reach _ _ _ Hr) as I. pose proof (keys_reach _ _ Hr) as K. apply step_tstep in Hs.
-    pose proof (keys_step _ _ _ Hs K) as K'. split; [eapply count_step; eassumption | eapply agree_step; eassumption].
+    destruct (IH Hnc') as (C & G & A). pose proof (Inv_reach _ _ _ Hr) as I. pose proof (keys_reach _ _ Hr) as K. apply step_tstep in Hs.
+    pose proof (keys_step _ _ _ Hs K) as K'. assert (C' : count_ok s') by (eapply count_step; eassumption).
+    split; [exact C'|]. split; [eapply agree_step; eassumption | eapply a2_one_step; eassumption].
 Qed.
+
+Theorem share_reach tr s : reach tr s -> no_clone tr -> count_ok s /\ chan_agree s.
+Proof. intros Hr Hnc. destruct (share_reach_full _ _ Hr Hnc) as (C & G & _). split; assumption. Qed.
 
 (* ---- a stream that has not been cloned and is not in the second half of its asynchronous drop is registered in
    msg_senders under its own key, unless the reader has failed ---- *)
